@@ -336,7 +336,9 @@ def unit_cond(u):
 
 
 def file_cond(f, ext, rep):
-    return "ext-vector" if (ext and f["nv"] > 1) else ("unit-space" if " " in f["unit"] else rep)
+    # (extend_scalar on a vector field used to be a failure class of its own; it is a no-op since fix 3066ef99,
+    # so a failure of such a file is classified by its actual cause first)
+    return "unit-space" if " " in f["unit"] else ("ext-vector" if (ext and f["nv"] > 1) else rep)
 
 
 def cond_labels(f):
@@ -344,7 +346,7 @@ def cond_labels(f):
 
 
 def raise_cond(f, ext, rep):
-    return "ext-vector" if (ext and f["nv"] > 1) else f"labels-{f['lclass']}/{rep}"
+    return f"labels-{f['lclass']}/{rep}" if f["lclass"] != "plain" else ("ext-vector" if (ext and f["nv"] > 1) else f"labels-{f['lclass']}/{rep}")
 
 
 def compare_record(part, clause, f, exp, got, gexact, flat, emb, wit, ext=False, rep="", over=False):
